@@ -79,8 +79,8 @@ class Env:
             "project_meta": [{"p00": {"x": "1"}}],
             "name": ["v1", "v2"],
             "ballot_validation": [False],
-            "legal_min_length": [1], "legal_max_length": [3, 2], "legal_min_cost": [1], "legal_max_cost": [4],
-            "legal_min_score": [0], "legal_max_score": [5], "legal_min_total_score": [1],
+            "legal_min_length": [1, 0], "legal_max_length": [3, 2], "legal_min_cost": [1, 0], "legal_max_cost": [4],
+            "legal_min_score": [0], "legal_max_score": [5], "legal_min_total_score": [1, 0],
             "legal_max_total_score": [10],
             "sat_class": [Cost_Sat, Cardinality_Sat],
             "details": [det],
@@ -90,8 +90,13 @@ class Env:
             "parsing_errors": False, "meta": {}, "project_meta": {}, "name": "", "ballot_validation": True,
             "sat_class": None, "details": None,
         }
+        self.inst_nproj = case.get("inst_nproj", 3)
         self.instance = self.make("Instance", case["inst_attrs"], None)
-        self.inst_ids = self.attr_ids(self.instance)
+        self.instance.clear()
+        self.instance.update(self.projects[:self.inst_nproj])
+        # the instance object the CURRENT object is linked to (a deep copy / pickle round trip links to a copy)
+        self.ref = self.instance
+        self.allow_copy = False
 
     # ---- attribute values <-> ids -----------------------------------------------------------------
     def value(self, attr, k):
@@ -112,13 +117,19 @@ class Env:
         v = getattr(obj, attr)
         clsname = type(obj).__name__
         if attr == "instance":
+            # 1 = linked to the SAME instance object (an equal copy only after deepcopy / pickle);
+            # 997 = an equal but different object where the same one is required; 0 = a fresh default Instance()
             if type(v) is not self.E.Instance:
                 return UNKNOWN
+            for ref in (self.ref, self.instance):
+                if v is ref:
+                    return 1
             ids = self.attr_ids(v)
+            for ref in (self.ref, self.instance):
+                if set(v) == set(ref) and ids == self.attr_ids(ref):
+                    return 1 if self.allow_copy else 997
             if len(v) == 0 and all(i == 0 for i in ids):
                 return 0
-            if v == self.instance and ids == self.inst_ids:
-                return 1
             return UNKNOWN
         if attr == "ballot_type":
             if clsname in ATTRS and v is self.default_ballot_type(clsname):
@@ -182,7 +193,7 @@ class Env:
         return TAG.get(type(b).__name__, 0)
 
     # ---- construction -----------------------------------------------------------------------------
-    def make(self, clsname, ids, payload, variant=0):
+    def make(self, clsname, ids, payload, variant=0, empty=False):
         cls = self.cls[clsname]
         kw = {}
         for a, k in zip(ATTRS[clsname], ids):
@@ -195,17 +206,20 @@ class Env:
             else:
                 kw[a] = self.value(a, k)
         p = self.projects
+        if empty:
+            p = []
         if clsname == "Instance":
             return cls(p[:3] if variant == 0 else p[1:], **kw)
         if clsname in ("ApprovalBallot", "FrozenApprovalBallot", "OrdinalBallot", "FrozenOrdinalBallot"):
-            return cls([p[0], p[2]] if variant == 0 else [p[2], p[3]], **kw)
+            return cls(([p[0], p[2]] if variant == 0 else [p[2], p[3]]) if p else [], **kw)
         if "Ballot" in clsname:
-            return cls({p[0]: 1, p[1]: 2} if variant == 0 else {p[1]: 3, p[3]: 1}, **kw)
+            return cls(({p[0]: 1, p[1]: 2} if variant == 0 else {p[1]: 3, p[3]: 1}) if p else {}, **kw)
         if clsname == "BudgetAllocation":
             return cls(p[:2] if variant == 0 else p[2:], **kw)
         if clsname in ("SatisfactionProfile", "SatisfactionMultiProfile"):
             from pabutools.election.satisfaction import Cost_Sat
-            prof = self.P.ApprovalProfile([self.B.ApprovalBallot([p[0]], name="s0"),
+            p = self.projects
+            prof = self.P.ApprovalProfile([] if empty else [self.B.ApprovalBallot([p[0]], name="s0"),
                                            self.B.ApprovalBallot([p[1], p[2]], name="s1")], instance=self.instance)
             sats = [Cost_Sat(self.instance, prof, b if clsname == "SatisfactionProfile" else b.frozen())
                     for b in (prof if variant == 0 else prof[:1])]
@@ -320,6 +334,17 @@ def apply_op(env, cur, other, els, op):
         return cur.update({els[i]: c for i, c in arg})
     if name == "as_multiprofile":
         return cur.as_multiprofile()
+    if name == "ctor_val":
+        return type(cur)(cur, ballot_validation=bool(arg))
+    if name == "inst_mut":
+        # the linked instance is emptied / refilled IN PLACE: nothing may change for the objects linked to it
+        if arg == 0:
+            env.instance.clear()
+        elif arg == 1:
+            env.instance.update(env.projects[:3])
+        else:
+            env.instance.difference_update(list(env.instance))
+        return None
     raise ValueError("unknown op " + str(op))
 
 
@@ -329,8 +354,9 @@ def run_case(case):
     clsname = start["cls"]
     is_prof = "Profile" in clsname and "Satisfaction" not in clsname
     els = env.elements(clsname) if is_prof else None
-    cur = env.make(clsname, start["attrs"], start.get("payload"), 0)
-    other = env.make(clsname, start["other_attrs"], start.get("other_payload"), 1)
+    cur = env.make(clsname, start["attrs"], start.get("payload"), 0, empty=start.get("empty", False))
+    other = env.make(clsname, start["other_attrs"], start.get("other_payload"), 1,
+                     empty=start.get("other_empty", False))
     out = {"start": env.state(cur, els), "other": env.state(other, els), "steps": [],
            "elt_tags": [env.elt_tag(b) for b in els] if els else []}
     for op in case["ops"]:
@@ -342,15 +368,21 @@ def run_case(case):
             elif res is cur:
                 rec["kind"] = "same"
             else:
+                env.allow_copy = op[0] in ("deepcopy", "pickle")
                 st = env.state(res, els if type(res).__name__ == clsname else None)
+                env.allow_copy = False
                 if st["cls"] == 0:
                     rec["kind"] = "plain"
                     rec["pyname"] = st.get("pyname")
                 else:
                     rec["kind"] = "new"
                     rec["res"] = st
-                    if type(res).__name__ == clsname:
+                    # a new object of the class with the same attributes becomes the current object
+                    if type(res).__name__ == clsname and st["attrs"] == env.state(cur, els)["attrs"]:
                         cur = res
+                        if op[0] in ("deepcopy", "pickle") and isinstance(getattr(res, "instance", None),
+                                                                          env.E.Instance):
+                            env.ref = res.instance
         except Exception as e:  # noqa: the exception class is the observation
             rec["kind"] = "raise"
             rec["exc"] = type(e).__name__
